@@ -686,11 +686,12 @@ def step (st : St) (s : Step) : StepRes :=
                               (encodeRequest { id := mkId st.strIds st.nextId, method := sm, params := none })],
         nextId := st.nextId + 2, nextOp := st.nextOp + 1 } }
   | .newBatch meth n =>
-    -- `generate_batch_id_range`: one id is taken from the allocator, the range is `[id, id+n)`
+    -- `next_batch_request_id(len)` reserves the whole range `[id, id+n)` of `generate_batch_id_range`: the
+    -- allocator advances by the number of entries (pre-fix it advanced by one, see `stepOldAlloc`)
     { st := { st with
         pool := st.pool ++ [.batch st.nextId (st.nextId + n) { op := st.nextOp, wire := mkId st.strIds st.nextId }
                               (batchRaw st.strIds meth st.nextId n)],
-        nextId := st.nextId + 1, nextOp := st.nextOp + 1 } }
+        nextId := st.nextId + n, nextOp := st.nextOp + 1 } }
   | .newRegister meth =>
     { st := { st with
         pool := st.pool ++ [.registerNotif meth { op := st.nextOp, wire := .null }],
@@ -732,6 +733,17 @@ def step (st : St) (s : Step) : StepRes :=
        if !ch.receiverAlive || !ch.hasKind then { st := st } else
        { st := { st with core := st.core.modChan c (fun x => { x with hasKind := false }),
                          pool := st.pool ++ [closeMsg ch.owner] } })
+
+/-- the id allocation of `batch_request` before the fix: one id taken from the allocator although the batch uses
+`[id, id+n)` — the ids of the later entries are handed out again to the next call or batch -/
+def stepOldAlloc (st : St) (s : Step) : StepRes :=
+  match s with
+  | .newBatch _ _ => { step st s with st := { (step st s).st with nextId := st.nextId + 1 } }
+  | _ => step st s
+
+def runOldAlloc : St → List Step → St × List Effect
+  | st, [] => (st, [])
+  | st, s :: rest => ((runOldAlloc (stepOldAlloc st s).st rest).1, (stepOldAlloc st s).effs ++ (runOldAlloc (stepOldAlloc st s).st rest).2)
 
 /-- run a list of steps; the effect trace and the fatal errors are accumulated in order -/
 def run : St → List Step → St × List Effect
